@@ -28,6 +28,11 @@ META = {
         text="Single-feature worlds with an indicator composition and tag. Membership is asserted in both directions (inside => painted, outside => untouched) over all lattice and half-lattice points around generated simple polygons (convex/concave, both orientations, footprints written across and beyond +-180) and closed depth intervals incl. the end points and their floating-point neighbours; plumes against the interpolated ellipse with cyclic rotation-angle interpolation, head half-ellipsoid and continuation below the deepest section.",
         note="Boundary points only where coordinates are exactly representable; elsewhere a 1e-9 band is skipped. Plume longitude aliases are left to C08.",
         design="DESIGN.md section 4, C04"),
+    "C08": dict(
+        technique="metamorphic property-based testing (rapidcheck, one process per case): world file and query moved by a generated rigid motion / longitude offset, answers compared with a boundary-robust tolerance",
+        text="Generated worlds (every feature and model type, ridges, dip points, curved trenches, cross section) are rewritten under a rotation about the vertical plus translation (cartesian) or a common longitude offset (spherical; most offsets carry a feature onto +-180, beyond it, or a full turn) and queried at the moved points: temperature, compositions, grains and the tag string must agree to 1e-6/1e-7 relative.",
+        note="Plume 'rotation angles' are turned with the world; velocities excluded; cases where the original world's own answer changes within 2 cm are skipped and counted.",
+        design="DESIGN.md section 4, C08"),
     "C09": dict(
         technique="property-based testing (rapidcheck): differential 2D entry point vs 3D entry point at the independently mapped point, velocity projection oracle, boundary-robust comparison",
         text="Generated worlds with cross sections of any origin/direction in both coordinate systems; 2D points projected from feature-aimed queries; every property list. The statement's mapping is recomputed independently, the 3D answer at the mapped point must equal the 2D answer (velocity as in-section component, vertical, 0 in cartesian worlds); worlds without cross section must refuse all four 2D entry points.",
